@@ -45,6 +45,7 @@ ASSUMPTIONS = [
 METHODS = ['cosine', 'corr', 'spearman', 'rho-a', 'tau-a', 'cosine_cov', 'corr_cov']
 REGRESS_OK = ('cosine', 'corr', 'cosine_cov', 'corr_cov')
 EV_RTOL, EV_ATOL = 1e-9, 1e-10
+WATCHDOG_S = 20     # a fitter that loops (fit_regress_nn can) makes the case inconclusive
 
 
 # ============================================================================
@@ -78,6 +79,9 @@ def grouping(draw, n, min_groups, max_groups=None):
 def model_spec(draw, n_pairs, types, ties=False):
     t = draw(st.sampled_from(types))
     k = 1 if t == 'fixed' else draw(st.integers(2, 3))
+    # basis RDMs that are combined arithmetically never contain ties: a tie in the
+    # prediction would be broken by rounding (BLAS vs loop) and rank measures jump there
+    ties = ties and t in ('fixed', 'select')
     return dict(type=t, vecs=[draw(vec(n_pairs, ties)) for _ in range(k)])
 
 
@@ -120,7 +124,7 @@ def draw_list(draw, n, collapse_p=0.2):
     positions (many distinct units), or a collapsed draw out of 1-2 units"""
     if n <= 1:
         return [0] * n
-    if draw(st.integers(0, 99)) < int(collapse_p * 100):
+    if draw(st.integers(0, 99)) >= 100 - int(collapse_p * 100):
         pool = draw(st.lists(st.integers(0, n - 1), min_size=1, max_size=2))
         return [pool[draw(st.integers(0, len(pool) - 1))] for _ in range(n)]
     off = draw(st.integers(0, n - 1))
@@ -155,12 +159,12 @@ def base_case(draw, cond_range=(4, 8), rdm_range=(2, 6), min_pat_groups=3, min_r
     n_cond = draw(st.integers(*cond_range))
     n_rdm = draw(st.integers(*rdm_range))
     n_pairs = n_cond * (n_cond - 1) // 2
-    ties = draw(st.integers(0, 99)) < 12
+    ties = draw(st.integers(0, 99)) >= 88
     data = [draw(vec(n_pairs, ties)) for _ in range(n_rdm)]
     rdm_groups = pat_groups = None
-    if draw(st.integers(0, 99)) < group_p and n_rdm > min_rdm_groups:
+    if draw(st.integers(0, 99)) >= 100 - group_p and n_rdm > min_rdm_groups:
         rdm_groups = draw(grouping(n_rdm, max(1, min_rdm_groups)))
-    if draw(st.integers(0, 99)) < group_p and n_cond > min_pat_groups:
+    if draw(st.integers(0, 99)) >= 100 - group_p and n_cond > min_pat_groups:
         pat_groups = draw(grouping(n_cond, min_pat_groups, max_pat_groups))
     method = draw(st.sampled_from(METHODS))
     m = draw(st.integers(1, max_models))
@@ -226,8 +230,9 @@ def cv_case(routine):
         k_rdm = draw(st.sampled_from([1, 2, 2, 3, None]))
         kp_eff = 2 if k_pattern is None else k_pattern
         min_pg = 3 * kp_eff + (1 if kp_eff > 1 else 0)
-        case = draw(base_case(cond_range=(max(4, min_pg), 10 if kp_eff > 1 else 8), rdm_range=(2, 5),
-                              min_pat_groups=min_pg, group_p=55,
+        case = draw(base_case(cond_range=(max(4, min_pg), 10 if kp_eff > 1 else 8),
+                              rdm_range=(max(2, k_rdm or 2), 6 if (k_rdm or 2) > 2 else 5),
+                              min_pat_groups=min_pg, min_rdm_groups=k_rdm or 2, group_p=55,
                               max_models=2 if dual else 3))
         g_r = n_groups(case['rdm_groups'], len(case['data']))
         if k_rdm is not None and k_rdm > g_r:
@@ -333,10 +338,11 @@ def fixed_predictions(case, models):
     return preds
 
 
-def compare_entry(case, stored, pred, rid, cid, what, sig):
+def compare_entry(case, stored, pred, rid, cid, what, sig, spec=None):
     """stored evaluation vs reference; returns False if the reference is undefined"""
+    arithmetic = spec is not None and spec['type'] in ('weighted', 'interpolate')
     try:
-        exp = U.mean_similarity(case, pred, rid, cid)
+        exp = U.mean_similarity(case, pred, rid, cid, arithmetic)
     except U.Degenerate as d:
         if np.isnan(stored):
             raise Reject('degenerate comparison: %s' % d, 'degenerate:undefined-similarity')
@@ -393,7 +399,7 @@ def result_arrays(res):
 
 def check_rerun(case, call, res):
     """same seed + same injected history -> every stored array bit-identical"""
-    with U.harness(case['seed'], case['draws']):
+    with U.harness(case['seed'], case['draws']), core.watchdog(WATCHDOG_S):
         res2 = lib(call, None)
     a, b = result_arrays(res), result_arrays(res2)
     for key in a:
@@ -511,7 +517,7 @@ def check_folds(case, ev, models, sets_ev, stored, pattern_idx_boot, what):
             pred = U.predict_ref(spec, e['theta'])
             compare_entry(case, stored[j, f], pred, te_rid, te_cid,
                           '%s model %d (%s, theta %s)' % (w, j, spec['type'], py(e['theta'])),
-                          'eval:' + case['routine'])
+                          'eval:' + case['routine'], spec)
 
 
 def check_cv_ceiling(case, ev, sets_ev, src_obj, stored, cv_dims, what):
@@ -578,7 +584,7 @@ def check_fixed(case):
         d, ms = (data, models) if first else (U.build_data(case), U.build_models(case))
         return EV.eval_fixed(ms, d, theta=U.theta_arg(case), method=case['method'])
 
-    with U.harness(case['seed'], case['draws'], rec):
+    with U.harness(case['seed'], case['draws'], rec), core.watchdog(WATCHDOG_S):
         res = lib(call, True)
     n_rdm = len(case['data'])
     m = len(models)
@@ -589,7 +595,8 @@ def check_fixed(case):
     for k in range(m):
         for r in range(n_rdm):
             compare_entry(case, ev[0, k, r], preds[k], [r], all_c,
-                          'eval_fixed model %d RDM %d' % (k, r), 'eval:eval_fixed')
+                          'eval_fixed model %d RDM %d' % (k, r), 'eval:eval_fixed',
+                          case['models'][k])
     check_boot_ceiling(case, res.noise_ceiling, list(range(n_rdm)), all_c, case['method'],
                        'index', 'eval_fixed noise ceiling', 'ceil:eval_fixed')
     # covariance across RDMs (divisor n) divided by their number; dof = n_rdm - 1
@@ -624,7 +631,7 @@ def check_boot_fixed(case):
             kw['pattern_descriptor'] = pd
         return getattr(EV, routine)(ms, d, **kw)
 
-    with U.harness(case['seed'], case['draws'], rec):
+    with U.harness(case['seed'], case['draws'], rec), core.watchdog(WATCHDOG_S):
         res = lib(call, True)
     N, m = case['N'], len(models)
     evals = np.asarray(res.evaluations, dtype=float)
@@ -653,7 +660,7 @@ def check_boot_fixed(case):
             w, row), 'nan:small-evaluated')
         for k in range(m):
             compare_entry(case, row[k], preds[k], rid, cid, '%s model %d' % (w, k),
-                          'eval:' + routine)
+                          'eval:' + routine, case['models'][k])
         if bnc:
             e = ev.next('ceil', w)
             require(e['kind'] == 'boot' and e['rdms'] is b['sample'] and e['method'] == case['method']
@@ -723,7 +730,7 @@ def check_boot_cv(case):
             kw['boot_type'] = case['boot_type']
         return getattr(EV, routine)(ms, d, **kw)
 
-    with U.harness(case['seed'], case['draws'], rec):
+    with U.harness(case['seed'], case['draws'], rec), core.watchdog(WATCHDOG_S):
         res = lib(call, True)
     N, m = case['N'], len(models)
     evals = np.asarray(res.evaluations, dtype=float)
@@ -828,8 +835,26 @@ def check_random_cv(case):
             rdm_descriptor=rd, boot_type=case['boot_type'],
             use_correction=case['use_correction'])
 
-    with U.harness(case['seed'], case['draws'], rec):
-        res = lib(call, True)
+    # n_cv, boot_type and use_correction are options the property quantifies over: an
+    # exception from numpy's shape machinery for an admissible option is a violation
+    with U.harness(case['seed'], case['draws'], rec), core.watchdog(WATCHDOG_S):
+        try:
+            res = call(True)
+        except (ValueError, IndexError) as e:
+            msg = str(e)
+            kind = ('broadcast' if 'broadcast' in msg else
+                    'concatenate' if 'number of dimensions' in msg else None)
+            if kind is None:
+                raise Reject('eval_dual_bootstrap_random raised %s: %s' % (
+                    type(e).__name__, e), 'rejected:call:' + type(e).__name__)
+            raise Violation('eval_dual_bootstrap_random(n_cv=%d, use_correction=%s) raised %s: %s'
+                            % (case['n_cv'], case['use_correction'], type(e).__name__, e),
+                            'raises:eval_dual_bootstrap_random:' + kind)
+        except (Violation, Reject, core.Inconclusive, core._Alarm):
+            raise
+        except Exception as e:  # noqa: BLE001
+            raise Reject('eval_dual_bootstrap_random raised %s: %s' % (type(e).__name__, e),
+                         'rejected:call:' + type(e).__name__)
     N, m, n_cv = case['N'], len(models), case['n_cv']
     evals = np.asarray(res.evaluations, dtype=float)
     nc = np.asarray(res.noise_ceiling, dtype=float)
@@ -916,7 +941,7 @@ def check_crossval(case):
     small = [len(U.ids_of(te[0])[1]) <= 2 for te in sets[1]]
     if case['ceil'] == 'given' and any(small):
         raise Reject('ceiling sets with a fold too small', 'domain:small-fold-with-ceil-set')
-    with U.harness(case['seed'], case['draws'], rec):
+    with U.harness(case['seed'], case['draws'], rec), core.watchdog(WATCHDOG_S):
         res = lib(call, True)
     m, F = len(models), len(case['folds'])
     evals = np.asarray(res.evaluations, dtype=float)
